@@ -330,7 +330,7 @@ func (c *Ctx) RulerLocking(prop string) {
 		for _, d := range r.Dispatch {
 			d := d
 			x, path := an.Cut(an.CutQuery{From: an.Entry(F), Target: func(i ssa.Instruction) bool { return i == d.(ssa.Instruction) },
-				AcceptEdge:  func(b *ssa.BasicBlock, i int, a *an.Atom) bool { return actionNe(a, r.ActionParam, g) },
+				AcceptEdge:  c.WithSummaries(func(a *an.Atom, sub Subst) bool { return actionNe(resolveAtom(a, sub), r.ActionParam, g) }),
 				AcceptInstr: func(i ssa.Instruction) bool { return i == post }})
 			want := "every path to rule evaluation either took the key locks or has [action != " + g.Name() + "]"
 			if x != nil {
@@ -415,18 +415,61 @@ func (c *Ctx) RulerLocking(prop string) {
 	c.rulerDedupe(r, L, statefulGlobals)
 }
 
-// lockKeyFrom checks that v (a [48]byte value) is the load of a local array that received copy(arr[:], rulesData[idx].PubKey).
+// lockKeyFrom checks that v (a [48]byte value) is a local array that received exactly copy(arr[:], rulesData[idx].PubKey):
+// either the load of such an array, or the result of a module helper that builds such an array from its parameter and is
+// given rulesData[idx].PubKey.
 func lockKeyFrom(v ssa.Value, data ssa.Value, idx ssa.Value) (bool, string) {
+	src, why := arrayCopySource(v, 0)
+	if why != "" {
+		return false, why
+	}
+	owner, f, base := an.FieldOf(src)
+	if owner == nil || f != "PubKey" {
+		return false, "copied from " + an.Term(src)
+	}
+	root, i2, ok := elemLoad(base)
+	if !ok || root != data || i2 != idx {
+		return false, "copied from " + an.Term(src)
+	}
+	return true, ""
+}
+
+// arrayCopySource: v is an array value whose only initialisation is one copy(arr[:], src); returns src in the frame of v.
+func arrayCopySource(v ssa.Value, depth int) (ssa.Value, string) {
+	if call, ok := v.(*ssa.Call); ok && depth < 2 {
+		callee := call.Call.StaticCallee()
+		if callee == nil || callee.Blocks == nil || !prog.InModule(callee) || call.Call.IsInvoke() {
+			return nil, "key is the result of an unknown call"
+		}
+		rets := an.Returns(callee)
+		if len(rets) != 1 || len(rets[0].Results) != 1 {
+			return nil, "the key helper has more than one return"
+		}
+		src, why := arrayCopySource(an.Result(rets[0], 0), depth+1)
+		if why != "" {
+			return nil, why
+		}
+		q, ok := src.(*ssa.Parameter)
+		if !ok {
+			return nil, "the key helper does not copy from its own parameter"
+		}
+		for i, qq := range callee.Params {
+			if qq == q && i < len(call.Call.Args) {
+				return call.Call.Args[i], ""
+			}
+		}
+		return nil, "the key helper does not copy from its own parameter"
+	}
 	u, ok := v.(*ssa.UnOp)
 	if !ok || u.Op != token.MUL {
-		return false, "key is not a load of a local array"
+		return nil, "key is not a load of a local array"
 	}
 	arr, ok := u.X.(*ssa.Alloc)
 	if !ok {
-		return false, "key is not a load of a local array"
+		return nil, "key is not a load of a local array"
 	}
 	n := 0
-	good := false
+	var src ssa.Value
 	for _, r := range *arr.Referrers() {
 		switch x := r.(type) {
 		case *ssa.Slice:
@@ -436,127 +479,232 @@ func lockKeyFrom(v ssa.Value, data ssa.Value, idx ssa.Value) (bool, string) {
 					if _, isDbg := r2.(*ssa.DebugRef); isDbg {
 						continue
 					}
-					return false, "the key array is used other than as a copy destination"
+					return nil, "the key array is used other than as a copy destination"
 				}
 				n++
-				owner, f, base := an.FieldOf(call.Call.Args[1])
-				if owner == nil || f != "PubKey" {
-					return false, "copied from " + an.Term(call.Call.Args[1])
-				}
-				root, i2, ok := elemLoad(base)
-				if !ok || root != data || i2 != idx {
-					return false, "copied from " + an.Term(call.Call.Args[1])
-				}
-				good = true
+				src = call.Call.Args[1]
 			}
 		case *ssa.UnOp:
 		case *ssa.Store:
-			return false, "the key array is assigned directly"
+			return nil, "the key array is assigned directly"
 		case *ssa.IndexAddr:
-			return false, "key bytes are written individually"
+			return nil, "key bytes are written individually"
 		}
 	}
-	if n != 1 || !good {
-		return false, fmt.Sprintf("%d copies into the key", n)
+	if n != 1 || src == nil {
+		return nil, fmt.Sprintf("%d copies into the key", n)
 	}
-	return true, ""
+	return src, ""
 }
 
 func sameCellLoad(a, b ssa.Value) bool {
+	if _, isCall := a.(*ssa.Call); isCall && a == b {
+		return true // one and the same computed value
+	}
 	ua, ok1 := a.(*ssa.UnOp)
 	ub, ok2 := b.(*ssa.UnOp)
 	return ok1 && ok2 && ua.Op == token.MUL && ub.Op == token.MUL && ua.X == ub.X
 }
 
-// rulerDedupe: C01.O13 - before the lock loop, a full-range loop refuses a repeated key.
+// rulerDedupe: C01.O13 - before the lock loop, a full-range loop refuses a repeated key.  The scan may be written in
+// RunRules itself or in a helper that RunRules calls with the request list and whose result decides whether RunRules goes on.
 func (c *Ctx) rulerDedupe(r *Ruler, lockLoop *Loop, stateful map[*ssa.Global][]string) {
 	rule := "C01.O13 dedupe"
 	F := r.RunRules
-	data := ssa.Value(r.DataParam)
-	s := c.Slashing(rule)
-	var found *Loop
+	pre := r.PreLock[0].(ssa.Instruction)
 	why := "no full-range loop over the request list with a seen-set lookup found before the locks are taken"
-	for _, l := range FindLoops(F) {
-		if !l.FullRange || l.BoundLen != data || l == lockLoop {
-			continue
-		}
-		l := l
-		// lookup with comma-ok and a map update on the same map with a key copied from rulesData[idx].PubKey
-		var lk *ssa.Lookup
-		var upd *ssa.MapUpdate
-		for b := range l.Body {
-			if !l.InBodyProper(b) {
+	// scanLoop finds the dedupe loop of fn over its list value `data`
+	scanLoop := func(fn *ssa.Function, data ssa.Value, exclude *Loop) (*Loop, *ssa.Lookup, ssa.Value) {
+		for _, l := range FindLoops(fn) {
+			if !l.FullRange || l.BoundLen != data || l == exclude {
 				continue
 			}
-			for _, ins := range b.Instrs {
-				if x, ok := ins.(*ssa.Lookup); ok && x.CommaOk {
-					lk = x
+			l := l
+			// lookup with comma-ok and a map update on the same map with a key copied from data[idx].PubKey
+			var lk *ssa.Lookup
+			var upd *ssa.MapUpdate
+			for b := range l.Body {
+				if !l.InBodyProper(b) {
+					continue
 				}
-				if x, ok := ins.(*ssa.MapUpdate); ok {
-					upd = x
+				for _, ins := range b.Instrs {
+					if x, ok := ins.(*ssa.Lookup); ok && x.CommaOk {
+						lk = x
+					}
+					if x, ok := ins.(*ssa.MapUpdate); ok {
+						upd = x
+					}
+				}
+			}
+			if lk == nil || upd == nil {
+				continue
+			}
+			if lk.X != upd.Map {
+				why = "lookup and update use different maps"
+				continue
+			}
+			if _, ok := lk.X.(*ssa.MakeMap); !ok {
+				why = "the seen-set is not a fresh map"
+				continue
+			}
+			if ok, w := lockKeyFrom(lk.Index, data, l.Idx); !ok {
+				why = "the looked-up key is not the request's public key: " + w
+				continue
+			}
+			if !sameCellLoad(lk.Index, upd.Key) && lk.Index != upd.Key {
+				why = "the key recorded is not the key looked up"
+				continue
+			}
+			var okVal ssa.Value
+			for _, ref := range *lk.Referrers() {
+				if ex, ok := ref.(*ssa.Extract); ok && ex.Index == 1 {
+					okVal = ex
+				}
+			}
+			if okVal == nil {
+				why = "the presence flag of the lookup is ignored"
+				continue
+			}
+			// every iteration performs the lookup and (unless it leaves) the update
+			if l.IterationSkips(func(i ssa.Instruction) bool { return i == ssa.Instruction(upd) }) {
+				why = "an iteration can continue without recording its key"
+				continue
+			}
+			// from the lookup, the update (and hence the next iteration) is reachable only through the !exists edge
+			if x, _ := an.Cut(an.CutQuery{From: an.After(lk), Target: func(i ssa.Instruction) bool { return i == ssa.Instruction(upd) || i == l.Header.Instrs[0] },
+				AcceptEdge: func(b *ssa.BasicBlock, i int, a *an.Atom) bool {
+					return a != nil && a.Op == "false" && a.LV == okVal
+				}}); x != nil {
+				why = "a repeated key does not stop the request"
+				continue
+			}
+			return l, lk, okVal
+		}
+		return nil, nil, nil
+	}
+	if found, _, _ := scanLoop(F, ssa.Value(r.DataParam), lockLoop); found != nil {
+		// the dedupe loop completes before PreLock on all paths
+		hdr, exitB := found.Header, found.Exit
+		if x, path := an.Cut(an.CutQuery{From: an.Entry(F), Target: func(i ssa.Instruction) bool { return i == pre },
+			AcceptEdge: func(b *ssa.BasicBlock, i int, a *an.Atom) bool { return b == hdr && b.Succs[i] == exitB }}); x != nil {
+			c.R.Fail(rule, Fn(F), c.Pos(pre), "the locks can be taken without the duplicate-key scan having completed", "duplicate scan completes before PreLock", an.PathString(c.Pos, path))
+			return
+		}
+		c.R.OK(rule, Fn(F), c.Pos(found.Header.Instrs[0]), "a repeated 48-byte key in one request list is refused before any lock is taken or rule evaluated")
+		return
+	}
+	// a helper called with the request list
+	for _, ci := range Calls(F, func(ci ssa.CallInstruction) bool {
+		f := ci.Common().StaticCallee()
+		return f != nil && prog.InModule(f) && f.Blocks != nil && !ci.Common().IsInvoke()
+	}) {
+		call, isCall := ci.(*ssa.Call)
+		if !isCall {
+			continue
+		}
+		H := ci.Common().StaticCallee()
+		var hp *ssa.Parameter
+		for i, a := range ci.Common().Args {
+			if a == ssa.Value(r.DataParam) && i < len(H.Params) {
+				hp = H.Params[i]
+			}
+		}
+		if hp == nil || H.Signature.Results().Len() != 1 {
+			continue
+		}
+		found, lk, okVal := scanLoop(H, ssa.Value(hp), nil)
+		if found == nil {
+			continue
+		}
+		// classify H's returns: those reachable once a repeated key was seen (below the exists edge), and the others
+		dupReach := func(target ssa.Instruction) bool {
+			x, _ := an.Cut(an.CutQuery{From: an.After(lk), Target: func(i ssa.Instruction) bool { return i == target },
+				AcceptEdge: func(b *ssa.BasicBlock, i int, a *an.Atom) bool { return a != nil && a.Op == "false" && a.LV == okVal }})
+			return x != nil
+		}
+		var cleanK *ssa.Const
+		okShape := true
+		var dupVals []ssa.Value
+		hdr, exitB := found.Header, found.Exit
+		for _, ret := range an.Returns(H) {
+			v := an.Result(ret, 0)
+			if dupReach(ret) {
+				dupVals = append(dupVals, v)
+			}
+			// a return not preceded by the completed scan is not a clean return either
+			x, _ := an.Cut(an.CutQuery{From: an.Entry(H), Target: func(i ssa.Instruction) bool { return i == ssa.Instruction(ret) },
+				AcceptEdge: func(b *ssa.BasicBlock, i int, a *an.Atom) bool { return b == hdr && b.Succs[i] == exitB }})
+			if x == nil {
+				// reachable only after the scan completed: the clean result
+				k, ok := v.(*ssa.Const)
+				if !ok || (cleanK != nil && an.Term(cleanK) != an.Term(k)) {
+					okShape = false
+					continue
+				}
+				cleanK = k
+			} else if !dupReach(ret) {
+				dupVals = append(dupVals, v) // early return for another reason: must not look clean either
+			}
+		}
+		if !okShape || cleanK == nil {
+			why = "the duplicate-scan helper " + Fn(H) + " does not report completion of the scan by one constant result"
+			continue
+		}
+		// results after a repeated key (or any early return) differ from the clean constant
+		distinct := true
+		for _, v := range dupVals {
+			switch x := v.(type) {
+			case *ssa.Const:
+				if an.Term(x) == an.Term(cleanK) {
+					distinct = false
+				}
+			default:
+				// the loop's own index (>= 0) against a negative clean constant
+				kv, isInt := constIntOf(cleanK)
+				if !(isInt && kv < 0 && (v == found.Idx || v == ssa.Value(found.Phi))) {
+					// a non-nil error value
+					if call, ok := v.(*ssa.Call); ok && isNilConst(cleanK) {
+						if f := call.Call.StaticCallee(); f != nil {
+							switch f.String() {
+							case "fmt.Errorf", "errors.New", "github.com/pkg/errors.New", "github.com/pkg/errors.Errorf":
+								continue
+							}
+						}
+					}
+					distinct = false
 				}
 			}
 		}
-		if lk == nil || upd == nil {
+		if !distinct {
+			why = "the duplicate-scan helper " + Fn(H) + " can report a repeated key with the same result as a clean scan"
 			continue
 		}
-		if lk.X != upd.Map {
-			why = "lookup and update use different maps"
-			continue
-		}
-		if _, ok := lk.X.(*ssa.MakeMap); !ok {
-			why = "the seen-set is not a fresh map"
-			continue
-		}
-		if ok, w := lockKeyFrom(lk.Index, data, l.Idx); !ok {
-			why = "the looked-up key is not the request's public key: " + w
-			continue
-		}
-		if !sameCellLoad(lk.Index, upd.Key) {
-			why = "the key recorded is not the key looked up"
-			continue
-		}
-		// the exists edge must not come back to the loop nor reach the locks/dispatch
-		var okVal ssa.Value
-		for _, ref := range *lk.Referrers() {
-			if ex, ok := ref.(*ssa.Extract); ok && ex.Index == 1 {
-				okVal = ex
-			}
-		}
-		if okVal == nil {
-			why = "the presence flag of the lookup is ignored"
-			continue
-		}
-		// every iteration performs the lookup and (unless it leaves) the update
-		if l.IterationSkips(func(i ssa.Instruction) bool { return i == ssa.Instruction(upd) }) {
-			why = "an iteration can continue without recording its key"
-			continue
-		}
-		// from the lookup, the update (and hence the next iteration) is reachable only through the !exists edge
-		if x, _ := an.Cut(an.CutQuery{From: an.After(lk), Target: func(i ssa.Instruction) bool { return i == ssa.Instruction(upd) || i == l.Header.Instrs[0] },
+		// RunRules takes the locks only below [helper(...) == clean constant]
+		x, path := an.Cut(an.CutQuery{From: an.Entry(F), Target: func(i ssa.Instruction) bool { return i == pre },
 			AcceptEdge: func(b *ssa.BasicBlock, i int, a *an.Atom) bool {
-				return a != nil && a.Op == "false" && a.LV == okVal
-			}}); x != nil {
-			why = "a repeated key does not stop the request"
-			continue
+				if a == nil {
+					return false
+				}
+				if a.Op == "==" {
+					for _, side := range [][2]ssa.Value{{a.LV, a.RV}, {a.RV, a.LV}} {
+						if k, ok := side[1].(*ssa.Const); ok && side[0] == ssa.Value(call) && an.Term(k) == an.Term(cleanK) {
+							return true
+						}
+					}
+				}
+				if (a.Op == "true" || a.Op == "false") && a.LV == ssa.Value(call) {
+					return an.Term(cleanK) == a.Op
+				}
+				return false
+			}})
+		if x != nil {
+			c.R.Fail(rule, Fn(F), c.Pos(pre), "the locks can be taken although the duplicate-key scan ("+Fn(H)+") did not report a clean list", "locks only below ["+Fn(H)+"(...) == "+an.Term(cleanK)+"]", an.PathString(c.Pos, path))
+			return
 		}
-		// the refusing path returns verdicts without APPROVED: handled by C06.O6 (ruler.malformed) via origins
-		found = l
-	}
-	if found == nil {
-		c.R.Fail(rule, Fn(F), c.P.FuncPos(F), why, "for i := range rulesData { if seen[key_i] { refuse }; seen[key_i] = true } before any lock or rule", nil)
+		c.R.OK(rule, Fn(F), c.Pos(ci), "a repeated 48-byte key in one request list is refused ("+Fn(H)+") before any lock is taken or rule evaluated")
 		return
 	}
-	// the dedupe loop completes before PreLock on all paths
-	hdr, exitB := found.Header, found.Exit
-	pre := r.PreLock[0].(ssa.Instruction)
-	if x, path := an.Cut(an.CutQuery{From: an.Entry(F), Target: func(i ssa.Instruction) bool { return i == pre },
-		AcceptEdge: func(b *ssa.BasicBlock, i int, a *an.Atom) bool { return b == hdr && b.Succs[i] == exitB }}); x != nil {
-		c.R.Fail(rule, Fn(F), c.Pos(pre), "the locks can be taken without the duplicate-key scan having completed", "duplicate scan completes before PreLock", an.PathString(c.Pos, path))
-		return
-	}
-	_ = s
-	c.R.OK(rule, Fn(F), c.Pos(found.Header.Instrs[0]), "a repeated 48-byte key in one request list is refused before any lock is taken or rule evaluated")
+	c.R.Fail(rule, Fn(F), c.P.FuncPos(F), why, "for i := range rulesData { if seen[key_i] { refuse }; seen[key_i] = true } before any lock or rule", nil)
 }
 
 // GateTypestate: C15.O1 - PreLock ... Lock* ... PostLock with nothing blocking in between, and nobody else uses the locker.
